@@ -1,7 +1,7 @@
 (* C09 — pinned property theorems about the keep-alive part of the shared TransportService model
    (coq/Ts), in logical time. This file contains statements, `exact`, and Print Assumptions only. *)
 From Coq Require Import List NArith Bool.
-From V.Ts Require Import Model Proofs Rearm Timing.
+From V.Ts Require Import Model Proofs Rearm Timing Extra Exact.
 Import ListNotations.
 Open Scope N_scope.
 
@@ -167,6 +167,73 @@ Proof.
   - intros c. apply busy_strong.
 Qed.
 Print Assumptions C09_idle_close_exact.
+
+(* ---- per connection, both connections of a peer, across promotion ----
+   EXACT characterisation: at the end of every feasible history, for EVERY open connection k of a
+   peer — primary or secondary, also a former secondary that was promoted — the service's handle
+   of k is Active if and only if the last keep-alive activity on k (independent specification,
+   ghost log) is less than T old. (efinal = the set of open connections after the history.) *)
+Theorem C09_active_iff_recent :
+  forall tr ka T n0 k,
+  feasible 2 env0 (init ka T n0) tr = true ->
+  In k (e_live (efinal env0 tr)) ->
+  let s := final (init ka T n0) tr in
+  exists t, kfind k (s_act s) = Some t /\ t <= s_now s /\
+            (handle_active (s_ctxs s) k = true <-> s_now s < t + s_T s).
+Proof. exact active_iff_recent. Qed.
+Print Assumptions C09_active_iff_recent.
+
+(* a tracked connection always has an Active handle (feasible histories) *)
+Theorem C09_tracked_is_active :
+  forall tr ka T n0 k t,
+  feasible 2 env0 (init ka T n0) tr = true ->
+  kfind k (s_last (final (init ka T n0) tr)) = Some t ->
+  handle_active (s_ctxs (final (init ka T n0) tr)) k = true.
+Proof.
+  intros tr ka T n0 k t F. apply (ex_trk _ _ (exact_final tr env0 (init ka T n0) (exact_init ka T n0) F)).
+Qed.
+Print Assumptions C09_tracked_is_active.
+
+(* the view lists exactly the open connections in establishment order (primary = oldest), and an
+   open_substream of a keep-alive protocol counts as activity for the oldest open connection —
+   after the primary has closed that is the former secondary: its timeout is re-armed by opens
+   from then on *)
+Theorem C09_view_is_live :
+  forall tr ka T n0 p,
+  feasible 2 env0 (init ka T n0) tr = true ->
+  conn_ids (s_ctxs (final (init ka T n0) tr)) p = live_of p (e_live (efinal env0 tr)).
+Proof. exact view_final. Qed.
+Print Assumptions C09_view_is_live.
+
+Theorem C09_open_counts_for_primary :
+  forall e s p k,
+  conn_inv e (s_ctxs s) (s_pend s) -> ka_activity_of s (EOpen p) = Some k ->
+  fst k = p /\ hd_error (live_of p (e_live e)) = Some (snd k) /\ s_ka s = true.
+Proof. exact open_counts_for_primary. Qed.
+Print Assumptions C09_open_counts_for_primary.
+
+(* activity on one connection (or no activity at all) leaves the recorded time, the ghost log and
+   an Active handle of every other connection untouched — in particular those of the peer's other
+   connection, and those of the secondary while the primary is being closed (promotion) *)
+Theorem C09_other_connection_untouched :
+  forall e s dt i k,
+  conn_inv e (s_ctxs s) (s_pend s) -> ev_ok 2 e s i = true ->
+  ka_activity_of (with_now s (s_now s + dt)) i <> Some k -> (forall p c, i = EClosed p c -> k <> (p, c)) ->
+  kfind k (s_last (fst (mid s dt i))) = kfind k (s_last s) /\
+  kfind k (s_act (fst (mid s dt i))) = kfind k (s_act s) /\
+  (handle_active (s_ctxs s) k = true -> handle_active (s_ctxs (fst (mid s dt i))) k = true).
+Proof. exact other_connection_untouched. Qed.
+Print Assumptions C09_other_connection_untouched.
+
+(* non-vacuity of the promotion statement: T = 300; connections 1 and 2 of peer 0 at time 0; the
+   primary closes at 100; an open at 200 goes to connection 2 and re-arms it: polls at 400 (re-arm)
+   and 600 (downgrade at 200 + 300 = 500 <= 600) *)
+Example C09_nonvacuous_promotion :
+  let tr := [(0, EEst 0 1); (0, EEst 0 2); (100, EClosed 0 1); (100, EOpen 0); (200, ENone); (200, ENone)] in
+  feasible 2 env0 (init true 300 0) tr = true /\
+  concat (run (init true 300 0) tr) = [OEst 0; ORet 0 0; OCmd 2 0; ODown 0 2] /\
+  concat (run (init true 300 0) (firstn 5 tr)) = [OEst 0; ORet 0 0; OCmd 2 0].
+Proof. vm_compute. repeat split; reflexivity. Qed.
 
 (* non-vacuity: T = 300; established at 0, an open at 200 (keep-alive protocol) moves the close
    from 300 to 500: polls at 400 (re-arm) and 600 (downgrade); the permit in flight keeps the
